@@ -324,13 +324,16 @@ GENERIC = (' Also decided (engine/generic.py) over the functions of this propert
 EXTRA = {
     'C01': ' Further: bracket kinds of signatures nest (C01.9), wire-format limits inclusive everywhere (C01.10), '
            'fixed-array block count matches the block handed out (C01.11), array end computed after alignment.',
-    'C02': ' Further: byteswap is given (header order, target order) in that order; limits inclusive (C02.8).',
+    'C02': ' Further: byteswap is given (header order, target order) in that order; limits inclusive (C02.8); UTF-8 '
+           'witnesses (C02.11).',
     'C04': ' Further: registry containers live as long as the bus (C04.8); shape analysis of the list primitives the '
            'owner queue is edited with (C04.9).',
     'C05': ' Further: routing state containers are never recreated (C05.7), list primitives keep the ring (C05.8), the '
            'gate is told every party (C05.9).',
     'C06': ' Further: every DBusConnection parameter of a gate caller is one of the gate\'s parties (C06.10); rule '
-           'destination / origin are compared through destination / sender accessors (C06.11).',
+           'destination / origin are compared through destination / sender accessors (C06.11); the expiry timer wakes '
+           'for the slot due first, which bounds how long a reply counts as requested (C06.13); the peer\'s group list '
+           'is re-read with a grown buffer (C06.14).',
     'C07': ' Further: the tokeniser succeeds only when the whole rule text was consumed (C07.2b); the disconnect sweep '
            'removes only rules owned by or naming the departing connection (C07.4b); argN bytes compared over arg_lens[i]; '
            'a name in sender= / destination= stands for its primary owner only (C07.9); keys compared by whole-string '
@@ -347,23 +350,29 @@ EXTRA = {
            'crossings (C11.9); read wrappers grow the buffer once and cut it back on every exit (C11.10).',
     'C12': ' Further: unknown-field stripping covers 11..255 with an unsigned code (C12.8).',
     'C13': ' Further: a refused request holds no pending-reply slot (C13.7); counter containers never recreated (C13.6); '
-           '<limit> names and BusLimits fields one to one (C13.8); limit setters only lower the request (C13.9).',
+           '<limit> names and BusLimits fields one to one (C13.8); limit setters only lower the request (C13.9); list '
+           'operations decided on all small lists (C13.10); expiry timer armed when needed (C13.11); the owned-names count '
+           'changes only with owner objects (C13.12).',
     'C14': ' Further: references taken are released on the failure paths that follow (C14.2g); a preallocated hash '
            'entry is consumed or freed before it is forgotten (C14.9); list operations decided on all small lists '
-           '(C14.11); a place in the owner queue is one reference (C14.12); container growth is all-or-nothing (C14.13).',
+           '(C14.11); a place in the owner queue is one reference (C14.12); container growth is all-or-nothing (C14.13); '
+           'the owned-names list follows the life of owner objects (C14.14).',
     'C15': ' Further: read budget while descriptors are pending (C15.8); descriptor passing marked negotiated only on '
            'AGREE_UNIX_FD / when answering NEGOTIATE_UNIX_FD (C15.9); limit setters only lower the request (C15.11); the '
            'descriptor counter notifies exactly on crossings (C15.12).',
-    'C16': ' Further: struct and dict-entry brackets nest -- a closing bracket matches the innermost open one (C16.5).',
+    'C16': ' Further: struct and dict-entry brackets nest -- a closing bracket matches the innermost open one (C16.5); '
+           'string comparisons cover whole strings and whole ranges (C16.7).',
     'C17': ' Further: the I/O path is released on every path on which it was acquired (C17.8); serials are written in '
            'the message\'s byte order (C17.9); condition variables wait on the clock their deadline was read from '
            '(C17.10); hash front ends convert keys alike (C17.11); callbacks get the data registered with them (C17.12).',
     'C18': ' Further: capture and route name the same parties (C18.8); a name in a monitor\'s filter stands for its '
-           'primary owner only (C18.9).',
+           'primary owner only (C18.9); counters notify on crossings (C18.10); list operations incl. copy under failing '
+           'allocations (C18.11).',
     'C08': ' Further: every parser field an element handler sets is merged from included files (C08.7); the cookie '
            'response is compared as a whole (C08.11); cookie ages use the wall clock (C08.12).',
     'C19': ' Further: pending activations survive reload (C19.6); a held request\'s connection is used only while '
-           'connected (C19.7); the helper\'s parser records each element\'s own type (C19.8).',
+           'connected (C19.7); the helper\'s parser records each element\'s own type (C19.8); list operations (C19.10); '
+           'counters notify on crossings (C19.11); seconds / milliseconds normalised in pairs (C19.M).',
 }
 
 
